@@ -6,14 +6,14 @@ extern "C" {
 struct ascon_trng_state_s;
 int __real_ascon_trng_generate(unsigned char *out, size_t outlen);
 }
-static std::string g_mask_mode = "zero";
-static bytes_t g_mask_data; static size_t g_mask_pos = 0;
-static uint64_t g_lcg = 0x9E3779B97F4A7C15ULL;
-static std::vector<std::pair<int, bytes_t> > g_src; static size_t g_src_pos = 0;
-static long long g_src_calls = 0, g_mask_calls = 0;
-static std::vector<uint64_t> g_used;
-static std::string g_src_log;
-static bool g_src_active = false;
+static thread_local std::string g_mask_mode = "zero";
+static thread_local bytes_t g_mask_data; static thread_local size_t g_mask_pos = 0;
+static thread_local uint64_t g_lcg = 0x9E3779B97F4A7C15ULL;
+static thread_local std::vector<std::pair<int, bytes_t> > g_src; static thread_local size_t g_src_pos = 0;
+static thread_local long long g_src_calls = 0, g_mask_calls = 0;
+static thread_local std::vector<uint64_t> g_used;
+static thread_local std::string g_src_log;
+static thread_local bool g_src_active = false;
 
 void tape_set_mask(const std::string &mode, const bytes_t &data) {
     g_mask_mode = mode; g_mask_data = data; g_mask_pos = 0;
